@@ -80,6 +80,10 @@ type statsFile struct {
 	Class        string           `json:"class,omitempty"`
 	KnownDetails []string         `json:"known_details,omitempty"`
 	RapidLog     []string         `json:"rapid_log,omitempty"`
+	Rule         string           `json:"rule"`
+	Real         []string         `json:"real"`
+	Simulated    []string         `json:"simulated"`
+	Required     []string         `json:"required_probes"`
 }
 
 func main() {
@@ -145,6 +149,7 @@ func batch(p *props.Property, runs int, seed uint64, out string) int {
 		firstFail *FailFile
 	)
 	var curChooser *chooser.Rapid
+	memo := map[uint64]*props.Violation{}
 	sched.WatchdogInfo = func() string {
 		// Best effort: dump what the hung run had drawn so far.
 		if curChooser == nil {
@@ -168,6 +173,17 @@ func batch(p *props.Property, runs int, seed uint64, out string) int {
 			ch := chooser.NewRapid(rt)
 			curChooser = ch
 			o := p.Run(ch, st)
+			// The race detector is a lossy observer (four shadow slots per word,
+			// evicted pseudo-randomly depending on the process history), so the
+			// very same schedule can be flagged in one execution and not in the
+			// next. A report is never a false positive: once a choice list has
+			// been seen to fail, that verdict stands for the rest of the process.
+			key := choiceKey(ch.Record())
+			if o.Violation != nil {
+				memo[key] = o.Violation
+			} else if v := memo[key]; v != nil && o.Known == "" {
+				o.Violation = v
+			}
 			st.Record(o)
 			if o.Known != "" && len(known) < 5 && !st.Frozen {
 				known = append(known, o.Known+": "+o.KnownDetail)
@@ -195,7 +211,8 @@ func batch(p *props.Property, runs int, seed uint64, out string) int {
 		})
 	}()
 	sf := statsFile{Property: p.ID, Seed: seed, Runs: st.Counters["runs"], Counters: st.Counters, Distinct: len(st.Hashes),
-		DistinctNT: len(st.NTHashes), Samples: st.Samples, WallS: time.Since(start).Seconds(), KnownDetails: known}
+		DistinctNT: len(st.NTHashes), Samples: st.Samples, WallS: time.Since(start).Seconds(), KnownDetails: known,
+		Rule: p.Rule, Real: p.Real, Simulated: p.Simulated, Required: p.RequiredProbes}
 	code := 0
 	if lastFail != nil {
 		lastFail.Shrunk = true
@@ -214,6 +231,20 @@ func batch(p *props.Property, runs int, seed uint64, out string) int {
 	writeHashes(filepath.Join(out, "hashes.bin"), st.Hashes)
 	writeHashes(filepath.Join(out, "hashes-nt.bin"), st.NTHashes)
 	return code
+}
+
+func choiceKey(cs []chooser.Choice) uint64 {
+	h := uint64(14695981039346656037)
+	for _, c := range cs {
+		for _, v := range [2]uint64{c.N, c.V} {
+			for i := 0; i < 8; i++ {
+				h ^= v & 0xff
+				h *= 1099511628211
+				v >>= 8
+			}
+		}
+	}
+	return h
 }
 
 func propOf(id string) string {
@@ -263,20 +294,19 @@ func doReplay(p *props.Property, path string) int {
 	}
 	var o *props.Outcome
 	var diverged string
-	func() {
-		defer func() {
-			switch r := recover().(type) {
-			case nil:
-			case chooser.Diverged:
-				diverged = r.Error()
-			case chooser.Exhausted:
-				diverged = r.Error()
-			default:
-				panic(r)
-			}
-		}()
-		o = p.Run(chooser.NewList(ff.Choices, true), props.NewStats())
-	}()
+	attempts := 1
+	if ff.Class == "data-race" {
+		// See the note in batch(): the schedule replays exactly, the detector's
+		// memory of earlier accesses is lossy. Re-execute the identical schedule
+		// until the detector reports (it never reports a race that is not there).
+		attempts = 40
+	}
+	for a := 0; a < attempts; a++ {
+		o, diverged = replayOnce(p, ff.Choices)
+		if diverged != "" || (o.Violation != nil && o.Violation.Class == ff.Class) {
+			break
+		}
+	}
 	if diverged != "" {
 		fmt.Printf("REPLAY-DIVERGED %s\n", diverged)
 		return 4
@@ -296,4 +326,20 @@ func doReplay(p *props.Property, path string) int {
 		return 4
 	}
 	return 1
+}
+
+func replayOnce(p *props.Property, cs []chooser.Choice) (o *props.Outcome, diverged string) {
+	defer func() {
+		switch r := recover().(type) {
+		case nil:
+		case chooser.Diverged:
+			diverged = r.Error()
+		case chooser.Exhausted:
+			diverged = r.Error()
+		default:
+			panic(r)
+		}
+	}()
+	o = p.Run(chooser.NewList(cs, true), props.NewStats())
+	return o, ""
 }
